@@ -449,8 +449,10 @@ class reader( object ):
                     n		= -1
                     n,(ts,sn,js)= parse_record( fd, encoding=encoding )
                 except StopIteration:
-                    # No more records; on to the next file
-                    break
+                    # No records in this file (empty, or comments only); on to the next file
+                    if fd:
+                        fd.close()
+                    continue
                 except Exception as exc:
                     log.normal( "%s Ignoring history file %s: %s", self, self.name+f, exc )
                     if fd:
